@@ -481,6 +481,7 @@ package shwap
 
 //@ func NewRowNamespaceDataID
 //@   property C18 C09
+//@   ensures err == nil ==> result.RowID.EdsID.height == height && result.DataNamespace == namespace
 //@   ensures err == nil ==> result.RowID.RowIndex == rowIdx && 0 <= rowIdx && rowIdx < edsSize && height != 0
 
 // ---------------------------------------------------------------------------------------------
@@ -591,3 +592,97 @@ package shwap
 //@   property C18
 //@   nopanic
 //@   ensures result == Left || result == Right
+
+// ---------------------------------------------------------------------------------------------
+// NamespaceDataID and the wire form of RowNamespaceDataID: the namespace travels as its bytes after
+// the fixed-width fields. (go-square's namespace validation is an uninterpreted predicate.)
+//@ pure func nsValidForData(ns libshare.Namespace) bool
+//@ extern (github.com/celestiaorg/go-square/v4/share.Namespace).ValidateForData
+//@   ensures result == nil <==> nsValidForData(n)
+
+//@ func (NamespaceDataID).Validate
+//@   property C18 C09
+//@   ensures err == nil <==> (ndid.EdsID.height != 0 && nsValidForData(ndid.DataNamespace))
+
+//@ func NewNamespaceDataID
+//@   property C18 C09
+//@   ensures err == nil ==> result.EdsID.height == height && result.DataNamespace == namespace
+//@   ensures err == nil ==> height != 0 && nsValidForData(namespace)
+
+// (the namespace bytes do not live in the spare capacity of the buffer they are appended to)
+//@ func (NamespaceDataID).AppendBinary
+//@   property C18
+//@   nopanic
+//@   requires !sameArray(data, ndid.DataNamespace.data)
+//@   modifies data
+//@   ensures err == nil
+//@   ensures len(result) == len(data) + 8 + len(ndid.DataNamespace.data)
+//@   ensures sameArray(result, data) || isFresh(result)
+//@   ensures forall i int :: 0 <= i && i < len(data) ==> result[i] == old(data[i])
+//@   ensures u64be(result, len(data)) == ndid.EdsID.height
+//@   ensures forall j int :: 0 <= j && j < len(ndid.DataNamespace.data) ==> result[len(data) + 8 + j] == old(ndid.DataNamespace.data[j])
+
+//@ func (NamespaceDataID).MarshalBinary
+//@   property C18
+//@   nopanic
+//@   ensures err == nil && len(result) == 8 + len(ndid.DataNamespace.data)
+//@   ensures u64be(result, 0) == ndid.EdsID.height
+//@   ensures forall j int :: 0 <= j && j < len(ndid.DataNamespace.data) ==> result[8 + j] == ndid.DataNamespace.data[j]
+
+//@ func NamespaceDataIDFromBinary
+//@   property C18 C09
+//@   nopanic
+//@   untrusted data
+//@   ensures err == nil ==> len(data) == NamespaceDataIDSize && result.EdsID.height == u64be(data, 0) && result.EdsID.height != 0
+//@   ensures err == nil ==> result.DataNamespace.data == data[8:] && nsValidForData(result.DataNamespace)
+
+//@ func (*NamespaceDataID).Equals
+//@   property C18
+//@   ensures result <==> (ndid.EdsID.height == other.EdsID.height && bytesEq(ndid.DataNamespace.data, other.DataNamespace.data))
+
+//@ lemma C18_NamespaceDataID_roundtrip(height uint64, namespace libshare.Namespace)
+//@   property C18
+//@   assume len(namespace.data) == 29
+//@   let id, e1 = NewNamespaceDataID(height, namespace)
+//@   assume e1 == nil
+//@   let bs, e2 = id.MarshalBinary()
+//@   assert e2 == nil && len(bs) == NamespaceDataIDSize
+//@   let back, e3 = NamespaceDataIDFromBinary(bs)
+//@   assume e3 == nil
+//@   assert back.EdsID.height == height && bytesEq(back.DataNamespace.data, namespace.data)
+
+//@ func (RowNamespaceDataID).Validate
+//@   property C18 C09
+//@   ensures err == nil <==> (rndid.RowID.RowIndex >= 0 && rndid.RowID.EdsID.height != 0 && nsValidForData(rndid.DataNamespace))
+
+//@ func (RowNamespaceDataID).AppendBinary
+//@   property C18
+//@   nopanic
+//@   requires !sameArray(data, rndid.DataNamespace.data)
+//@   modifies data
+//@   ensures err == nil
+//@   ensures len(result) == len(data) + 10 + len(rndid.DataNamespace.data)
+//@   ensures sameArray(result, data) || isFresh(result)
+//@   ensures forall i int :: 0 <= i && i < len(data) ==> result[i] == old(data[i])
+//@   ensures u64be(result, len(data)) == rndid.RowID.EdsID.height
+//@   ensures u16be(result, len(data) + 8) == mod(rndid.RowID.RowIndex, 65536)
+//@   ensures forall j int :: 0 <= j && j < len(rndid.DataNamespace.data) ==> result[len(data) + 10 + j] == old(rndid.DataNamespace.data[j])
+
+//@ func (RowNamespaceDataID).MarshalBinary
+//@   property C18
+//@   nopanic
+//@   ensures err == nil && len(result) == 10 + len(rndid.DataNamespace.data)
+//@   ensures u64be(result, 0) == rndid.RowID.EdsID.height
+//@   ensures u16be(result, 8) == mod(rndid.RowID.RowIndex, 65536)
+//@   ensures forall j int :: 0 <= j && j < len(rndid.DataNamespace.data) ==> result[10 + j] == rndid.DataNamespace.data[j]
+
+//@ lemma C18_RowNamespaceDataID_roundtrip(height uint64, rowIdx int, edsSize int, namespace libshare.Namespace)
+//@   property C18
+//@   assume len(namespace.data) == 29 && 0 < edsSize && edsSize <= MaxEDS
+//@   let id, e1 = NewRowNamespaceDataID(height, rowIdx, namespace, edsSize)
+//@   assume e1 == nil
+//@   let bs, e2 = id.MarshalBinary()
+//@   assert e2 == nil && len(bs) == RowNamespaceDataIDSize
+//@   let back, e3 = RowNamespaceDataIDFromBinary(bs)
+//@   assume e3 == nil
+//@   assert back.RowID.EdsID.height == height && back.RowID.RowIndex == rowIdx && bytesEq(back.DataNamespace.data, namespace.data)
